@@ -769,7 +769,12 @@ func doRecover(caller *frame) value {
 		// TODO(adonovan): support runtime.Goexit.
 		switch p := p.(type) {
 		case targetPanic:
-			// The target program explicitly called panic().
+			// The target program explicitly called panic() -- or the engine raised a Go run-time
+			// panic on its behalf with a bare message (unlock of an unlocked mutex, send on a closed
+			// channel): recover() must yield an interface value either way.
+			if msg, ok := p.v.(string); ok {
+				return iface{caller.i.runtimeErrorString, msg}
+			}
 			return p.v
 		case runtime.Error:
 			// The interpreter encountered a runtime error.
